@@ -683,7 +683,7 @@ ChildExit(h, code) ==
 \* and the exit handle - and lives on.  The library learns of a child's end only from the exit handle, so until that
 \* descendant is gone too (GrandGone) a wait times out although the child is a zombie, and the streams see no end.
 ChildExitG(h, code) ==
-  /\ EnvOK /\ ch[h].alive = "run" /\ ch[h].self /\ ch[h].xo
+  /\ EnvOK /\ ch[h].alive = "run" /\ ch[h].self /\ (ch[h].xo \/ ch[h].fd # <<"x", "x", "x">>)   \* (something is left to inherit)
   /\ ch' = [ch EXCEPT ![h].alive = "zombie", ![h].code = code, ![h].termAt = INF]
   /\ hist' = Append(hist, EnvRec("exitg", h, [code |-> code]))
   /\ UNCHANGED <<life, stv, opt, pend, buf, cnt, now, fr, ncalls>>
